@@ -108,7 +108,10 @@ def _work(args):
                     agg["probes"][k] = agg["probes"].get(k, 0) + v
                 agg["states"].update(res.states)
                 if len(agg["samples"]) < 2 and res.nontrivial:
-                    agg["samples"].append(sc)
+                    smp = dict(sc)
+                    if res.observed:
+                        smp["_observed"] = res.observed
+                    agg["samples"].append(smp)
                 if audit_mod and i % audit_mod == 0:
                     agg["audit"][(i, sc["_run"]["variant"])] = res.digest
                 for v in res.violations:
